@@ -20,7 +20,7 @@ SPECS = os.path.join(VERIF, "specs")
 # The tree under test. Always /repo/src for the registered commands; tools/seedtest.py points the checks at a scratch
 # copy (outside /repo and /verif) through HIO_VERIF_SRC so that /repo itself is never modified by seed testing.
 REPO_SRC = os.path.abspath(os.environ.get("HIO_VERIF_SRC") or "/repo/src")
-MAX_VIOLATIONS = 8      # a check stops (exit 1) as soon as it has reported this many violations
+MAX_VIOLATIONS = int(os.environ.get("HIO_VERIF_MAXVIOL") or 8)      # a check stops (exit 1) as soon as it has reported this many violations
 WATCHDOG_S = 5.0        # a call into the real code that has not returned by then is the observable outcome "hang"
 TLA_CP = "/opt/veriftools/tla/tla2tools.jar:/opt/veriftools/tla/CommunityModules-deps.jar"
 
@@ -214,7 +214,7 @@ class Ctx:
             if finding not in self.known_hits:
                 self.known_hits[finding] = what
             return
-        if len(self.violations) < 20:
+        if len(self.violations) < max(20, MAX_VIOLATIONS):
             path = self.save_replay({"property": self.prop, "what": what, "case": replay_obj})
             self.violations.append((what, path))
             print("VIOLATION property=%s replay=%s" % (self.prop, path))
